@@ -1,6 +1,7 @@
 package props
 
 import (
+	"github.com/sdcio/yang-parser/schema"
 	"encoding/json"
 	"fmt"
 	"regexp"
@@ -26,7 +27,8 @@ func init() {
 			"when / if-feature / status on uses and augment, diamond use of one grouping through two others; the harness expands every uses/refine/augment at source level and both " +
 			"texts are compiled with the same random subset of enabled features: the canonical dumps must be equal after the namespace/module of augmenting nodes is mapped to the " +
 			"augmenting module (asserted separately on the factored dump); injected sibling name clashes must be rejected; in half of the cases the body statements of every module are " +
-			"permuted (groupings after their first use), one case in ten is a fixed forward-reference nest (uses two and three levels inside a grouping that is defined after its use), and for one case " +
+			"permuted (groupings after their first use), half of the groupings carry a description and reference of their own, one case in ten is a fixed two-module pair whose inline definition is written by hand " +
+			"(a typedef named like a refined leaf, a uses inside a uses-augment that names a grouping existing in both modules, an augment from a submodule with its own belongs-to prefix), one case in ten is a fixed forward-reference nest (uses two and three levels inside a grouping that is defined after its use), and for one case " +
 			"in three the self-contained groupings and typedefs of the first module are moved into a submodule it includes and the set is compiled again: nothing but the submodule attribution may change; distinct_nontrivial = distinct factored texts with at least one uses or augment",
 		block: 8,
 		assumptions: []string{
@@ -51,8 +53,9 @@ func c12Cfg(r *core.Rng) yang.GenCfg {
 }
 
 type c12Case struct {
-	ms    *yang.ModSet
-	clash bool
+	ms      *yang.ModSet
+	clash   bool
+	inlined *yang.ModSet // hand-written inline definition (fixed cases); nil: use the source-level expander
 }
 
 func c12Gen(seed int64, idx int) c12Case {
@@ -88,6 +91,37 @@ func c12Gen(seed int64, idx int) c12Case {
 			yang.S("grouping", "fw-inner2", yang.S("leaf", "fb", yang.S("type", "uint8"))))
 		yang.SortSections(m)
 		c12Shuffle(r, m, true)
+	case 8:
+		// fixed two-module pair with its inline definition written by hand: what belongs to the grouping
+		// itself (description, reference, a typedef named like one of its leaves) and what is written
+		// inside a uses (a refine of that leaf, an augment that uses a grouping of the using module whose
+		// name also exists in the defining module)
+		lib := yang.S("module", "fx-lib", yang.S("namespace", "urn:verif:fx-lib"), yang.S("prefix", "fl"),
+			yang.S("grouping", "g", yang.S("description", "the grouping g"), yang.S("reference", "ref of g"),
+				yang.S("typedef", "x", yang.S("type", "string", yang.S("length", "1..9"))),
+				yang.S("leaf", "x", yang.S("type", "x")),
+				yang.S("container", "c", yang.S("leaf", "in-lib", yang.S("type", "string")))),
+			yang.S("grouping", "h", yang.S("leaf", "h-of-lib", yang.S("type", "string"))))
+		user := yang.S("module", "fx-user", yang.S("namespace", "urn:verif:fx-user"), yang.S("prefix", "fu"), yang.S("import", "fx-lib", yang.S("prefix", "fl")),
+			yang.S("grouping", "h", yang.S("description", "the grouping h"), yang.S("leaf", "h-of-user", yang.S("type", "int8"))),
+			yang.S("container", "fx-top", yang.S("description", "the container"),
+				yang.S("uses", "fl:g", yang.S("refine", "x", yang.S("default", "five")), yang.S("augment", "c", yang.S("uses", "h"))),
+				yang.S("container", "plain", yang.S("uses", "h"))))
+		inl := yang.S("module", "fx-user", yang.S("namespace", "urn:verif:fx-user"), yang.S("prefix", "fu"), yang.S("import", "fx-lib", yang.S("prefix", "fl")),
+			yang.S("container", "fx-top", yang.S("description", "the container"),
+				yang.S("leaf", "x", yang.S("type", "fl:x"), yang.S("default", "five")),
+				yang.S("container", "c", yang.S("leaf", "in-lib", yang.S("type", "string")), yang.S("leaf", "h-of-user", yang.S("type", "int8"))),
+				yang.S("container", "plain", yang.S("leaf", "h-of-user", yang.S("type", "int8")))))
+		c.ms = &yang.ModSet{Mods: []*yang.Stmt{user, lib}}
+		// (in the inline form the typedef of g stands at the top of its module, where the leaf can name it)
+		libInl := yang.S("module", "fx-lib", yang.S("namespace", "urn:verif:fx-lib"), yang.S("prefix", "fl"),
+			yang.S("typedef", "x", yang.S("type", "string", yang.S("length", "1..9"))),
+			yang.S("grouping", "h", yang.S("leaf", "h-of-lib", yang.S("type", "string"))))
+		c.inlined = &yang.ModSet{Mods: []*yang.Stmt{inl, libInl}}
+		if idx%20 >= 10 {
+			c12Shuffle(r, user, true)
+		}
+		return c
 	case 7:
 		// sibling clash introduced by uses / augment
 		c.clash = true
@@ -104,6 +138,14 @@ func c12Gen(seed int64, idx int) c12Case {
 				yang.S("augment", "/"+pf+":cl-use", yang.S("leaf", "same", yang.S("type", "string"))))
 		}
 		yang.SortSections(m)
+	}
+	// what describes a grouping itself (description, reference) is not part of what it defines
+	for _, mod := range ms.Mods {
+		mod.Walk(func(g *yang.Stmt, _ int) {
+			if g.Kw == "grouping" && g.Find("description") == nil && r.Chance(1, 2) {
+				g.Kids = append([]*yang.Stmt{yang.S("description", "text of grouping "+g.Arg), yang.S("reference", "ref of "+g.Arg)}, g.Kids...)
+			}
+		}, 0)
 	}
 	// the order of the body statements of a module carries no meaning: in half of the cases it is
 	// permuted, so that groupings, typedefs and augments are also met after their first use
@@ -197,6 +239,10 @@ func (p *c12) Run(tier string, seed int64, idx int) core.CaseResult {
 		return res
 	}
 	inl, info := yang.Inline(c.ms)
+	if c.inlined != nil {
+		inl, info = c.inlined, &yang.Inliner{NUses: 3, NRefines: 1, NUsesAugments: 1}
+		res.Ev("fixed_pairs_with_hand_written_inline_definition", 1)
+	}
 	if len(info.Errs) > 0 {
 		res.Fail("harness-panic", input, "inliner: "+strings.Join(info.Errs, "; "))
 		return res
@@ -266,6 +312,32 @@ func (p *c12) Run(tier string, seed int64, idx int) core.CaseResult {
 	fd, id := norm(fr.DumpRoot), norm(ir.DumpRoot)
 	if fd != id {
 		res.Fail("C12/schema-differs-from-inline-definition", both, firstDiff(id, fd)+"\n(- inlined, + factored)")
+	}
+	// fixed pair only: an augment written in a submodule whose belongs-to prefix is not the module's prefix
+	if c.inlined != nil {
+		v := c.ms.Clone()
+		u := v.Mods[0]
+		u.Add(yang.S("include", "fx-user-sub"))
+		yang.SortSections(u)
+		v.Mods = append(v.Mods, yang.S("submodule", "fx-user-sub", yang.S("belongs-to", "fx-user", yang.S("prefix", "fus")),
+			yang.S("augment", "/fus:fx-top/fus:plain", yang.S("leaf", "from-sub", yang.S("type", "string")))))
+		vr := compileTexts(v.Texts(nil), nil, feats, nil, true)
+		res.Ev("submodule_variants_compiled", 1)
+		vin := input + "\n======== with an augment from a submodule (belongs-to prefix fus) ========\n" + textsString(v.Texts(nil))
+		switch {
+		case vr.Panic != "" || vr.ParseErr != "":
+			res.Fail("C12/submodule-variant/panic", vin, vr.Panic+vr.ParseErr)
+		case !vr.Accepted():
+			res.Fail("C12/submodule-variant/rejected", vin, vr.Err)
+		default:
+			var n schema.Node = vr.MS
+			pan, _, _ := core.Guard(func() { n = n.Child("fx-top").Child("plain").Child("from-sub") })
+			if pan || n == nil {
+				res.Fail("C12/submodule-variant/schema-differs", vin, "/fx-top/plain/from-sub is missing")
+			} else if n.Namespace() != "urn:verif:fx-user" {
+				res.Fail("C12/submodule-variant/schema-differs", vin, "/fx-top/plain/from-sub has namespace "+n.Namespace())
+			}
+		}
 	}
 	// the definitions of the first module moved into a submodule it includes: the groupings are then
 	// defined in the submodule and used from the module; nothing but the submodule attribution may change
